@@ -21,6 +21,9 @@ theorem verdict : (classify Generated.factsC07).Sound (Holds (cfgOf Generated.fa
 #print axioms refutes_current
 #print axioms findings_current
 #print axioms findings_beforeFix
+#print axioms witness_first_readers_race
+#print axioms holdsRace_of
+#print axioms refutes_of_race
 #print axioms holds_current_nonvalue
 #print axioms witness_updated_stale
 #print axioms witness_created_stale
